@@ -79,6 +79,13 @@ TEMPLATES = [
     {"type": "object", "title": "foo_1", "properties": {"p": {"type": "object", "title": "Foo"}, "q": {"type": "object", "title": "foo", "required": ["z"]}}},
     {"type": ["object"], "title": "Single", "default": {}, "patternProperties": {"^x": {"type": "object", "title": "single"}}},
     {"oneOf": [{"type": "object", "title": "A", "properties": {"k": {"const": True}}}, {"type": "object", "title": "A", "properties": {"k": {"const": 1}}}], "not": {"required": ["zz"]}},
+    # object descriptions with significant white space (they travel through the generated class docstring)
+    {"type": "object", "title": "Totals", "description": "Totals:\n  - net\n  - gross",
+     "properties": {"a": {"type": "object", "title": "Amounts", "description": "Amounts in\n    minor units (cents)."},
+                    "b": {"type": "object", "title": "Lead", "description": " starts with a blank"},
+                    "c": {"type": "object", "title": "Trail", "description": "ends with a line break\n"},
+                    "d": {"type": "object", "title": "Blank", "description": "\n\n  two blank lines first, tab\tinside  "},
+                    "e": {"type": "string", "description": "  not an object:\n    kept by repr  "}}},
     # recorded finding K24: an allOf member (or the keywords next to a composition) that differs from Element() but serializes to {}
     {"allOf": [{"required": []}, {"type": "string"}]},
     {"properties": {}, "anyOf": [{"type": "integer"}, {"type": "null"}]},
